@@ -26,6 +26,10 @@ FUNCS = ('function keep(p:vmod) return vmod is begin return p; end;\n'
          'function failing(p:vmod) return integer is begin tmp = vmod(4242); raise oops; return 1; end;\n')
 
 
+FLIP = ("function flip(p:vmod, n:integer) return vmod is begin k = p.tag(); q = p.settag(k + 1); "
+        "if k < n then return vmod(7); end if; return 5; end; ")
+
+
 class Model:
     """variables -> references; a reference is ('o', module, serial)"""
     def __init__(self):
@@ -362,6 +366,12 @@ class Sh:
             ("a = vmod(vmod(1)); z = a.ping();", {"vmod": 2, "vmod2": 0}, False),
             ("a = vmod(1); r = tup(a, a, 1); b = r@2; r = null; a = null; z = b.ping();", {"vmod": 1, "vmod2": 0}, False),
             ("t = tab(3, vmod(1)); forall e in t loop e = vmod(2); end loop; z = t.at(2).ping();", {"vmod": 6, "vmod2": 0}, False),
+            # collections abandoned half-built: an opaque item function yields objects first and a value of another type (or an error) later
+            (FLIP + "c = vmod(0); begin t = tab(2, flip(c, 1)); exception when others then nop; end; z = c.ping();", {"vmod": 2, "vmod2": 0}, True),
+            (FLIP + "c = vmod(0); t = tab(3, flip(c, 2)); z = c.ping();", {"vmod": 3, "vmod2": 0}, True),
+            (FLIP + "c = vmod(0); begin t = tab(4, flip(c, 9)); u = tab(3, flip(c, 5)); exception when others then nop; end; z = t.at(3).ping();", {"vmod": 6, "vmod2": 0}, True),
+            (FLIP + "c = vmod(0); begin r = tup(vmod(2), flip(c, 1), 1 / 0); exception when others then nop; end; z = c.ping();", {"vmod": 3, "vmod2": 0}, True),
+            (FLIP + "c = vmod(0); t = tab(1, vmod(3)); begin t.concat(flip(c, 0)); exception when others then nop; end; begin t.insert(0, tab(2, flip(c, 2))); exception when others then nop; end; z = t.at(0).ping();", None, True),
             ("function deep(n:integer, p:vmod) return vmod is begin if n <= 0 then return p; end if; return deep(n - 1, p); end; a = deep(50, vmod(1)); z = a.ping();", {"vmod": 1, "vmod2": 0}, False),
         ]
         for text, counts, mayfail in S:
